@@ -82,8 +82,17 @@ struct Case {
     late: bool,
 }
 
+/// Odd keys carry a Redis-Cluster style hash tag: every routing decision of a node (client command, remote delta, recovered
+/// delta) has to treat the name as one opaque key, or all of them have to honour the tag alike.
 fn kname(k: u8) -> String {
-    format!("k{}", k)
+    if k % 2 == 1 {
+        format!("k{}{{t{}}}", k, k)
+    } else {
+        format!("k{}", k)
+    }
+}
+fn kidx(name: &str) -> u8 {
+    name[1..].chars().take_while(|c| c.is_ascii_digit()).collect::<String>().parse().unwrap_or(0)
 }
 fn sds(s: &str) -> SDS {
     SDS::from_str(s)
@@ -626,7 +635,7 @@ impl<'a> Run<'a> {
             return true;
         }
         for d in ds {
-            let key: u8 = d.key[1..].parse().unwrap_or(0);
+            let key: u8 = kidx(&d.key);
             let prior = self.tr.prior(to, key);
             self.nodes[to].apply(d.clone());
             rep.count("deliveries");
@@ -663,7 +672,7 @@ async fn run_nodes(case: &Case, rep: &mut Report) -> Vec<Finding> {
                 let priors: Vec<String> = ks.iter().map(|k| run.tr.prior(*at, *k)).collect();
                 let (resp, ds) = run.nodes[*at].exec(to_command(*key, cmd)).await;
                 for d in &ds {
-                    let dk: u8 = d.key[1..].parse().unwrap_or(0);
+                    let dk: u8 = kidx(&d.key);
                     if d.value.is_hash() && run.tr.saw_whole_key_change.contains(&(*at, dk)) {
                         run.tr.recreated.insert(dk);
                     }
@@ -685,7 +694,7 @@ async fn run_nodes(case: &Case, rep: &mut Report) -> Vec<Finding> {
                     }
                 }
                 for d in &ds {
-                    run.truth.entry(d.key[1..].parse().unwrap_or(0)).or_default().push(d.value.clone());
+                    run.truth.entry(kidx(&d.key)).or_default().push(d.value.clone());
                 }
                 for (i, (k, prior)) in ks.iter().zip(&priors).enumerate() {
                     keys.insert(*k);
